@@ -230,6 +230,11 @@ func (b *ByteBuffer) Read(dst []byte) (int, error) {
 		return 0, io.EOF
 	}
 
+	if b.si == b.ri {
+		// Bytes are saved but the read area is empty: nothing to read.
+		return 0, io.EOF
+	}
+
 	n := copy(dst, b.data[b.si:b.ri])
 	b.Consume(n)
 
